@@ -12,7 +12,7 @@
    higher-scoring strand reported (either one on a tie).  Where the text is silent - which of
    several attaining offsets, inputs outside the preconditions [wf] - the spec accepts. *)
 From TM Require Import Base.Prelude C14.Model.
-From Coq Require Export QArith Qabs.
+From Coq Require Export QArith Qabs Qround.
 Open Scope Z_scope.
 
 Record call := mkcall { c_t : tdata; c_d : dims; c_q : qdata }.
@@ -177,9 +177,21 @@ Definition mono_ok (band : Z) (d2 xs : list Z) : bool :=
      if fst a + band <=? fst b then snd b <=? snd a else true) (combine d2 xs))
     (combine d2 xs).
 
+(* ------------------------------------------------------------------ the integerisation itself
+   (DESIGN section 7: x = floor((gamma - median) * scale + 1/2)).  For one query the harness recomputes
+   v = (gamma - median) * scale from the PWM entries: gamma = -sqrt(d2) exactly where d2 is a rational
+   square (coarse-grid PWMs: then every float operation of the kernel is exact and lo = hi = v), otherwise
+   as a rigorous bracket [lo, hi] that also covers the kernel's rounding.  Where the bracket decides the
+   floor, the kernel's integer x must be floor(v + 1/2); undecided cells demand nothing. *)
+Definition int_cell_ok (c : Q * Q * Z) : bool :=
+  let a := Qfloor (fst (fst c) + (1 # 2)) in
+  if a =? Qfloor (snd (fst c) + (1 # 2)) then snd c =? a else true.
+Definition int_ok (cells : list (Q * Q * Z)) : bool := forallb int_cell_ok cells.
+
 Inductive case :=
 | KQuery (with_model : bool) (c : call) (o : outcome)   (* with_model = false: reference only (large inputs) *)
 | KMono (band : Z) (d2 xs : list Z)
+| KInt (cells : list (Q * Q * Z))                       (* (lo, hi, x) per recomputed cell *)
 | KRaised                                               (* an in-scope tomtom(...) call raised *)
 | KMany (l : list case).                                (* the queries of one tomtom(...) call *)
 
@@ -188,6 +200,7 @@ Fixpoint check_case (k : case) : nat :=
   | KQuery true c o => verdict (outcome_agree o (model c)) (spec_ok c o)
   | KQuery false c o => verdict true (spec_ok c o)
   | KMono band d2 xs => verdict true (mono_ok band d2 xs)
+  | KInt cells => verdict true (int_ok cells)
   | KRaised => 2%nat
   | KMany l => (fix go (l : list case) : nat :=
                   match l with [] => 0%nat | x :: t => Nat.max (check_case x) (go t) end) l
